@@ -16,7 +16,7 @@ import (
 var c18Patterns = []string{"a.example.com", "example.com", "*.example.com", "a.example.*", "*", "a*m", "default",
 	"aXexample.com", "*.org", "b.example.org", "a.*.com", "*example.com", "x.o*g"}
 var c18Hosts = []string{"a.example.com", "b.example.com", "example.com", "aXexample.com", "a.example.org", "b.example.org",
-	"x.org", "am", "a.b.com", "default", "a.example.comX", "zzz", "Xa.example.com", "a-example.com"}
+	"x.org", "am", "a.b.com", "default", "a.example.comX", "zzz", "Xa.example.com", "a-example.com", "x.org.org", "a.example.com.example.com"}
 
 // refWild: '*' stands for any character sequence, every other character for itself.
 func refWild(pat, s string) bool {
@@ -140,6 +140,64 @@ func c18Minimise(c *Ctx, table []string, host, clause string) []string {
 	return cur
 }
 
+// c18Sequence: all hosts on one table instance, forwards then backwards; every answer must be
+// acceptable and equal to the first answer given for that host.
+func c18Sequence(table []string) (cl string, detail string) {
+	if cr := guard(func() {
+		pcr := NewPreConfigRoute()
+		for i, p := range table {
+			pcr.AddRouteItem("udp", p, fmt.Sprintf("nh%d.example.net:%d", i, 6000+i))
+		}
+		first := map[string]string{}
+		order := append([]string(nil), c18Hosts...)
+		for i := len(c18Hosts) - 1; i >= 0; i-- {
+			order = append(order, c18Hosts[i])
+		}
+		for _, h := range order {
+			_, nh, port, err := pcr.FindRoute(h)
+			ans := ""
+			if err == nil {
+				ans = fmt.Sprintf("%s:%d", nh, port)
+			}
+			ok := false
+			want := refRoute(table, h)
+			if want == nil && ans == "" {
+				ok = true
+			}
+			for _, i := range want {
+				if ans == fmt.Sprintf("nh%d.example.net:%d", i, 6000+i) {
+					ok = true
+				}
+			}
+			if !ok {
+				cl, detail = "precedence", fmt.Sprintf("table %v host %q (in a sequence of lookups on one table): answered %q", table, h, ans)
+				return
+			}
+			if prev, seen := first[h]; seen && prev != ans {
+				cl, detail = "unstable-across-lookups", fmt.Sprintf("table %v: host %q answered %q first and %q after other hosts had been looked up", table, h, prev, ans)
+				return
+			}
+			first[h] = ans
+		}
+	}); cr != "" {
+		return "panic", fmt.Sprintf("table %v: %s", table, cr)
+	}
+	return
+}
+
+func c18MinimiseSeq(table []string) []string {
+	cur := append([]string(nil), table...)
+	for i := 0; i < len(cur); {
+		t := append(append([]string(nil), cur[:i]...), cur[i+1:]...)
+		if cl, _ := c18Sequence(t); cl != "" {
+			cur = t
+		} else {
+			i++
+		}
+	}
+	return cur
+}
+
 func c18Tables(maxN int) [][]string {
 	var out [][]string
 	var rec func(start int, cur []string)
@@ -189,6 +247,22 @@ func c18Run(c *Ctx) {
 				min := c18Minimise(c, t, h, cl)
 				c.Violate(cl+"|"+strings.Join(min, ","), cl, detail, c18Case{t, h, "direct"})
 			}
+		}
+	}
+	// one table INSTANCE, many lookups: the answer for a host must not depend on which other hosts
+	// were looked up before (canonical map order; every host looked up, then again in reverse order)
+	idx = 0
+	for _, t := range tables {
+		idx++
+		if !c.Mine(idx) || c.Expired() {
+			continue
+		}
+		cl, detail := c18Sequence(t)
+		c.Res.Evaluations++
+		c.Res.Executions += int64(2 * len(c18Hosts))
+		c.Res.Nontrivial++
+		if cl != "" {
+			c.Violate(cl+"|"+strings.Join(c18MinimiseSeq(t), ","), cl, detail, c18Case{t, "", "sequence"})
 		}
 	}
 	// next-hop port rule, crossed with the protocol spelling
@@ -283,12 +357,16 @@ func c18EndToEnd(c *Ctx) {
 
 func init() {
 	addCheck(&Check{ID: "C18", Level: "exploration",
-		Rule:   "all route tables of <=4 (thorough <=5) entries over a 13-pattern universe (incl. equal-length overlapping wildcards) x 14 hosts, each lookup executed under every map iteration order (all permutations, explorer choice); non-trivial = at least one entry matches; plus port rule table and end-to-end lookups by To host",
+		Rule:   "all route tables of <=4 (thorough <=5) entries over a 13-pattern universe (incl. equal-length overlapping wildcards) x 16 hosts (incl. hosts in which a pattern's tail occurs twice), each lookup executed under every map iteration order (all permutations, explorer choice); non-trivial = at least one entry matches; plus, per table, all hosts looked up forwards and backwards on ONE table instance (the answer must not depend on earlier lookups), the port rule table and end-to-end lookups by To host",
 		Assume: []string{"Go's regexp package is trusted for nothing: the reference matcher is an independent recursive wildcard matcher"},
 		Run:    c18Run,
 		Replay: func(c *Ctx, raw json.RawMessage) string {
 			var cs c18Case
 			json.Unmarshal(raw, &cs)
+			if cs.Mode == "sequence" {
+				cl, _ := c18Sequence(cs.Table)
+				return cl
+			}
 			if cs.Mode != "direct" {
 				return ""
 			}
